@@ -492,9 +492,17 @@ func recordXmlTokens(data []byte) (toks []string, final string) {
 	}
 }
 
+var xmlReads int
+
 // readXmlImpl reads the text through both routes - ReadXml(in) and ReadXml(in, option) with an option that changes
 // nothing (the command always passes one) - and answers with the tree when they agree
 func readXmlImpl(data []byte) string {
+	xmlReads++
+	if xmlReads%5 == 0 {
+		if c, err := xsel.ReadXml(&failingReader{data: []byte(`<?xml version="1.0"?><stale xmlns:s="urn:stale"><a>lost<b>`)}); err == nil {
+			return fmt.Sprintf("ACCEPTED an input whose reader failed (cursor nil: %v)", c == nil)
+		}
+	}
 	a := readXmlRoute(data, false)
 	b := readXmlRoute(data, true)
 	if a != b {
